@@ -76,6 +76,35 @@ def splice(text, start, end, new):
     return text[:start] + new + text[end:]
 
 
+def switched_off(on):
+    """differences between factory(options in `on` true) and factory(those true, every other known option false)"""
+    from pysmi.parser.smi import parserFactory
+    from pysmi.lexer.smi import lexerFactory
+    plain = {o: True for o in on}
+    full = dict({o: False for o in ALL_OPTIONS}, **plain)
+    diffs = []
+
+    def table(inst):
+        lr = inst.parser
+        return ([(pr.name, tuple(getattr(pr, 'prod', ())), pr.func if isinstance(pr.func, str) else getattr(pr.func, '__name__', None))
+                 for pr in lr.productions], {st: dict(a) for st, a in lr.action.items()}, {st: dict(g) for st, g in lr.goto.items()})
+    try:
+        a, b = table(parserFactory(**plain)()), table(parserFactory(**full)())
+        if a != b:
+            extra = sorted(set(b[0]) - set(a[0]))[:3]
+            diffs.append('parserFactory: grammar differs (productions only with the false options: %r)' % (extra,))
+    except BaseException as e:
+        diffs.append('parserFactory raised %s: %s' % (type(e).__name__, e))
+    try:
+        la, lb = lexerFactory(**plain)(), lexerFactory(**full)()
+        for attr in ('reserved', 'tokens', 'forbidden_words'):
+            if getattr(la, attr, None) != getattr(lb, attr, None):
+                diffs.append('lexerFactory: %s differs' % attr)
+    except BaseException as e:
+        diffs.append('lexerFactory raised %s: %s' % (type(e).__name__, e))
+    return diffs
+
+
 def breakages(text):
     """yield (option, kind, malformed text, expected leaf changes) for every applicable position of a plain module text.
     expected: list of (old, new) leaf replacements the tree may show w.r.t. the unmodified text's tree (empty = identical)."""
@@ -514,6 +543,15 @@ def run(ctx):
         except BaseException as e:
             res.oracle_failures.append({'key': 'known-option', 'what': 'lexerFactory rejects the documented option %s: %r' % (o, e), 'input': {'option': o}})
 
+    # (iii-a) an option passed as false is an option not passed
+    for on in ([], ['noCells'], [rng.choice(ALL_OPTIONS)], list(pc.DIALECTS['smiV1']), list(pc.DIALECTS['smiV1Relaxed'])):
+        on = [o for o in on if o != 'smiV2']
+        res.case(('switched-off', tuple(on)), True)
+        res.count('switched-off-sets')
+        for d in switched_off(on):
+            res.oracle_failures.append({'key': 'false-option', 'what': 'options [%s] true and every other known option false: %s' % (','.join(on) or 'none', d),
+                                        'input': {'on': on}})
+
     # (iii-b) parser tables cached on disk: parsers of different option sets sharing one cache directory (as successive
     # runs of a tool do) behave like parsers built without a cache
     cache_stream(ctx, modules, specials)
@@ -545,6 +583,9 @@ def replay(payload):
     if key == 'shared-cache':
         diffs = cache_run([tuple(x) for x in inp['cache_pairs']], [inp['text']] if inp.get('text') else [])
         return {'fails': bool(diffs), 'what': [str(d)[:200] for d in diffs[:3]]}
+    if key == 'false-option':
+        d = switched_off(inp['on'])
+        return {'fails': bool(d), 'what': d}
     if key == 'unknown-option':
         from pysmi import error
         from pysmi.parser.smi import parserFactory
